@@ -101,7 +101,8 @@ func checkList(prop, tier string) {
 		// an element type with its own, well-behaved but not field-wise, Compare method:
 		// Sort, Min and Max must follow derived Compare, which delegates to it
 		uo := &Ty{Expr: "UOrd", Kind: "struct", Comparable: true, Flags: map[string]bool{"userord": true}}
-		for i, t := range []*Ty{uo, ptrOf(uo), sliceOf(uo)} {
+		ud := &Ty{Expr: "UDiff", Kind: "struct", Comparable: true, Flags: map[string]bool{"userord": true}}
+		for i, t := range []*Ty{uo, ptrOf(uo), sliceOf(uo), ud, ptrOf(ud)} {
 			cases = append(cases, listCase(prop, fmt.Sprintf("u%d", i+1), t))
 		}
 	}
